@@ -78,7 +78,13 @@ pub fn parse_patch_date(date_str: &str) -> Result<(i64, i64), ParsePatchDateErro
         ));
     }
 
-    let offset = offset_hours * 3600 + offset_minutes * 60;
+    // the sign applies to the minutes as well ("-0330" is -12600 s)
+    let sign = if m.get(2).unwrap().as_str().starts_with('-') {
+        -1
+    } else {
+        1
+    };
+    let offset = offset_hours * 3600 + sign * offset_minutes * 60;
     // Parse secs_str with a time format %Y-%m-%d %H:%M:%S using the chrono crate
     let dt = chrono::NaiveDateTime::parse_from_str(secs_str, "%Y-%m-%d %H:%M:%S")
         .map_err(|_| ParsePatchDateError::InvalidDate(date_str.to_string()))?
